@@ -63,7 +63,7 @@ def args_for(r, v, f_lf, f_crlf):
         args += ["--column"]
     if v == "ctx":
         args += ["-C1"]
-    if v == "crlf":
+    if v in ("crlf", "crlf_lf"):
         args += ["--crlf"]
     if v == "maxctx":
         args += ["-m1", "-A2"]
@@ -112,7 +112,7 @@ def judge_one(r, lines, v, rc, so, se):
                 if sep != b"-" or t not in (orig, rr.items_bytes(lr["r"])):
                     return "context line %d printed as %r" % (k, t)
         return None
-    exp = expected(r, lines, {"plain": "plain", "only": "only", "column": "column", "crlf": "plain"}[v])
+    exp = expected(r, lines, {"plain": "plain", "only": "only", "column": "column", "crlf": "plain", "crlf_lf": "plain"}[v])
     if v == "crlf":
         exp = [(n, s, t + b"\r") for n, s, t in exp]
     skip = set(k for k, content in enumerate(lines, 1) if not judged(r, content))
@@ -147,7 +147,7 @@ def main(tier):
             if not r["o"]["inv"]:
                 variants += ["only", "column"]
                 if i % 4 == 0 and "13" not in json.dumps(r["u"]):     # a literal CR is rejected under --crlf
-                    variants += ["crlf"]
+                    variants += ["crlf", "crlf_lf"]
             else:
                 variants += ["ctx"]
             if not r["o"]["inv"] and i % 2 == vlib.seed() % 2:
